@@ -419,7 +419,7 @@ def _answer(ctx: Ctx, cer: gw.Ceremony, request: Psbt, answers: list[Psbt], faul
         with ctx.must_succeed(P, "honest-answer-accepted", "assert_signatures_only"):
             assert_signatures_only(asked, a)
     with ctx.must_succeed(P, "honest-answer-accepted", "request_signatures"):
-        merged = _role(ctx, "request_signatures", lambda r: request_signatures(_Answered(arrived), r), [asked])  # type: ignore[arg-type]
+        merged = _role(ctx, "request_signatures", lambda r, a: request_signatures(_Answered(a), r), [asked, arrived])  # type: ignore[arg-type]
     lost, altered, _ = ref.compare(merged.serialize(), [asked.serialize(), sent], MODIFIABLE)
     ctx.check(P, "merged-answer-loses-no-pair", not lost and not altered, lambda: f"request_signatures lost {lost[:3]} altered {altered[:3]}", site="request_signatures")
     _same_tx(ctx, "request_signatures", _ident(asked), merged)
@@ -437,8 +437,11 @@ def _answer(ctx: Ctx, cer: gw.Ceremony, request: Psbt, answers: list[Psbt], faul
             ctx.probe(f"pending:answer/{name}")  # PENDING-FINDING: this edit is accepted on the pinned tree
             continue
         edited = edit(ch, asked, deepcopy(answer), cer)
+        if edited is None:
+            ctx.probe(f"edit-not-applicable:{name}")
+            continue
         try:
-            wire = edited.serialize() if edited is not None else sent
+            wire = edited.serialize()
             received = Psbt.parse(wire)
         except LIB:
             ctx.probe(f"edit-not-a-psbt:{name}")
